@@ -724,11 +724,17 @@ func (x *Run) execUnOp(fr *Frame, st *State, ins *ssa.UnOp, outs *[]Outcome) {
 		x.interfere(fr, st)
 		r := x.freshVal(st, "recv", ct.Elem())
 		if !ins.CommaOk {
-			st.events = append(st.events, Event{Name: "recv", Args: []Val{v, r}, Ret: Val{T: "true", S: SBool}})
+			// a plain receive completes on a closed channel too (zero value): the
+			// event's result says which, although the code cannot see it
+			ok := x.freshVal(st, "recvok", types.Typ[types.Bool])
+			st.events = append(st.events, Event{Name: recvName(v), Args: []Val{v, r}, Ret: ok})
+			closed := sel(x.arr(st, x.chClosedFor(v, ins.X.Type())), v.T)
+			st.assume(implies(not(closed), ok.T))
+			st.assume(implies(not(ok.T), eq(r.T, x.d.zero(ct.Elem()))))
 		}
 		if ins.CommaOk {
 			ok := x.freshVal(st, "recvok", types.Typ[types.Bool])
-			st.events = append(st.events, Event{Name: "recv", Args: []Val{v, r}, Ret: ok})
+			st.events = append(st.events, Event{Name: recvName(v), Args: []Val{v, r}, Ret: ok})
 			closed := sel(x.arr(st, x.chClosedFor(v, ins.X.Type())), v.T)
 			st.assume(implies(not(closed), ok.T))
 			st.assume(implies(not(ok.T), eq(r.T, x.d.zero(ct.Elem()))))
@@ -920,4 +926,14 @@ func (x *Run) loopExitChecks(fr *Frame, st *State, b *ssa.BasicBlock) {
 			}
 		}
 	}
+}
+
+// recvName: receive events carry the field the channel was read from, so a
+// contract can ask about the receives on one particular channel
+// ("recv:H.server.Control.workConnCh"); the pattern "recv" matches them all.
+func recvName(ch Val) string {
+	if ch.Origin != "" {
+		return "recv:" + ch.Origin
+	}
+	return "recv"
 }
